@@ -41,8 +41,15 @@ def count_comments(text):
     return walk(tinycss2.parse_stylesheet(text, skip_whitespace=False, skip_comments=False))
 
 
+def regen_clisrc():
+    from translate import clisrc
+    clisrc.generate()           # CmGen/CliSrc.lean: path handling, target ratio, dispatch literals of cli/main.py as they read now (CmProps/C09src.lean)
+
+
 def check(run):
-    run.proof = proof_status("C09")
+    run.proof = proof_status("C09", regenerate=regen_clisrc)
+    from translate import clisrc as _cs
+    run.extra["source_translation"] = _cs.summary()
     q = run.quick()
     repo_import()
     n = 160 if q else 4000
